@@ -27,6 +27,7 @@ Decided clause:
   R5.7 (E2 who-may-call) primitive-specific units of crypto_box / crypto_scalarmult / crypto_kx / crypto_secretbox never call the
        generic front end of their own operation: `crypto_box_beforenm` from the XChaCha20 box is the HSalsa20 derivation, so the
        one-shot and the precomputed API would disagree on the shared key.
+  R5.9 (E17) fe51_pack.S: the mask that selects the final subtraction of p depends on all five limbs of the value being encoded.
   R5.8 (E12) in the X25519 units (incl. the field arithmetic inlined from the private headers) no carry / shifted limb is identically
        zero: a limb masked before its carry is taken makes the ladder's result wrong whenever that limb overflows.
   R5.5 (E12 known-bits) in the X25519 units `(hi << k) | lo` packings have provably bit-disjoint operands; the
@@ -96,6 +97,9 @@ def run(ctx, chk):
     knownbits.dead_carry_rule(prog, chk, "R5.8", ("crypto_scalarmult/curve25519/",), floor=20,
                               allowed=[("_sodium_scalarmult_curve25519_sandy2x_fe_frombytes",
                                         "sandy2x decoder: h9 has 25 bits by construction, `carry9 = h9 >> 25` is zero by design")])
+    # R5.9: the canonical encoding of the assembly backend: the final conditional subtraction of p is decided from all five limbs (E17)
+    from .. import asmstr
+    asmstr.freeze_rule(prog, chk, "R5.9", "crypto_scalarmult/curve25519/sandy2x/fe51_pack.S")
     # R5.7: who-may-call: the box / scalarmult / kx / secretbox families never go through the generic front end of their own operation
     cm.layering_rule(prog, chk, "R5.7", ("crypto_box", "crypto_scalarmult", "crypto_kx", "crypto_secretbox", "crypto_core"), floor=50)
     # R5.6: "for every schedule": the key-agreement units keep no per-call state in static storage (E16)
